@@ -13,6 +13,19 @@ pub fn profile(p: u64) -> Scn {
         s.epoch_len = 6;
         return s;
     }
+    if p == 5 || p == 6 {
+        // tight consensus limits: a block holds the cellbase and about three transactions (cycles: 3 x 537 <= 1700 < 4 x 537;
+        // bytes: ~480 of header / cellbase / extension + 3-4 transactions), three proposals - templates are taken while the
+        // pool holds more than fits, so the assembler's size / cycle / proposal accounting decides what goes in
+        s.mine = true;
+        s.window = (2, 4);
+        // 5: the cycle limit binds (three transactions), 6: the byte limit binds (uncles take 228 bytes each)
+        s.max_block_bytes = Some(if p == 5 { 2600 } else { 1500 });
+        s.max_block_cycles = if p == 5 { Some(1700) } else { None };
+        s.max_proposals = 3;
+        s.genesis_cells = 16;
+        return s;
+    }
     match p % 4 {
         0 => { s.mine = true; s.window = (2, 4); }
         1 => { s.mine = false; s.window = (2, 4); }
@@ -115,6 +128,15 @@ pub fn reorg_history(args: &[String], probes: bool) -> Value {
     let mut err: Option<String> = None;
     // twins created for transactions that went to the main chain: candidates to be committed on a side branch
     let mut twins: Vec<usize> = vec![];
+    if pr == 5 || pr == 6 {
+        // backlog: more independent transactions than two blocks can take
+        for g in 0..9usize {
+            let n_out = 1 + g % 3;
+            if let Some(t) = w.new_tx(&[g], &[], &[], n_out, 1000 + 137 * g as u64, &mut rng) {
+                if w.submit(t).is_ok() { n_accept += 1 } else { n_reject += 1 }
+            }
+        }
+    }
     for _step in 0..steps {
         let r = rng.below(100);
         let res: Result<(), String> = (|| {
